@@ -51,7 +51,10 @@ Raw == {
   <<102,111,111,32,98,97,114>>,
   <<65,67,75,32,91,53,64,48,93,32,123,112,108,97,121,50,125,32,120,10>>,
   <<65,67,75,58,32,120,10,79,75,10>>,
-  <<10>>, <<79,75,13,10>>, <<97,58,98,10>>, <<97,58,32,0,10,79,75,10>> }
+  <<10>>, <<79,75,13,10>>, <<97,58,98,10>>, <<97,58,32,0,10,79,75,10>>,
+  \* partial ACK lines (no LF) whose number already exceeds 2^64-1: no continuation is valid (regression of a false alarm of this model)
+  <<65,67,75,32,91,49,56,52,52,54,55,52,52,48,55,51,55,48,57,53,53,49,54,48,49,53,64,48,93,32,123,97,125,32>>,
+  <<65,67,75,32,91,53,64,57,57,57,57,57,57,57,57,57,57,57,57,57,57,57,57,57,57,57,57>> }
 StreamsFull  == SetToSeq(Base \cup Pairs \cup Truncs(Base) \cup Muts \cup Raw)
 StreamsQuick == SetToSeq(Base \cup Truncs({Enc(L(<<F(<<<<Ka, <<98>>>>>>, <<>>)>>, E2)), Enc(A(<<<<Ka, <<195,169>>>>>>, <<<<79,75,10>>>>))}) \cup Raw
                          \cup Deletes(Enc(A(<<<<Ka, <<98>>>>>>, <<>>))) \cup Flips(Enc(A(<<>>, <<<<79,75,10>>>>))))
